@@ -33,7 +33,10 @@ ASSUMPTIONS = [
 @st.composite
 def _tree_case(draw, max_depth):
     t = draw(mtree.tree(max_n=6, max_depth=max_depth))
-    return {"kind": "tree", "tree": t, "data": draw(vec(24, -2.0, 2.0)), "s": draw(mtree.nz)}
+    return {"kind": "tree", "tree": t, "data": draw(vec(24, -2.0, 2.0)), "s": draw(mtree.nz),
+            # lazily cached attributes evaluated on the object before anything is observed: derived objects
+            # (inverse, transpose, multiples) may be handed caches that exist only for some evaluation orders
+            "warm": draw(st.lists(st.sampled_from(WARM), max_size=3))}
 
 
 @st.composite
@@ -56,6 +59,9 @@ def _rect_case(draw):
 def strategy(tier):
     d = 3 if tier == "quick" else 4
     return st.one_of(_tree_case(d), _tree_case(d), _tree_case(d), _tree_case(d), _implicit_case(), _rect_case())
+
+
+WARM = ["eigval", "eigvec", "sqrt", "log_abs_det", "inv", "T", "array", "diagonal", "inv.eigval", "inv.sqrt", "T.inv"]
 
 
 def _arr(data, *shape):
@@ -104,12 +110,45 @@ def _root_label(spec, M):
     return lab
 
 
-def observe(res, M, R, tol, data, label, s):
+def _eig_consistent(ck, what, X, Rx, n):
+    """eigval/eigvec of X must be an eigendecomposition of the dense reference Rx (any order)."""
+    lam = ck.call(what + "eigval", lambda: np.asarray(X.eigval, dtype=float))
+    V = ck.call(what + "eigvec", lambda: np.asarray(X.eigvec.array, dtype=float))
+    if lam is None or V is None:
+        return None, None
+    if lam.shape != (n,) or V.shape != (n, n):
+        ck.res.fail(f"C10:{ck.label}:{what}eig:shape", f"eigval {lam.shape} / eigvec {V.shape} for size {n}")
+        return None, None
+    ck.eq(what + "eig:AV=VL", lambda: Rx @ V - V * lam, np.zeros((n, n)), extra_scale=np.max(np.abs(Rx)))
+    ck.eq(what + "eig:VtV=I", lambda: V.T @ V, np.eye(n))
+    return lam, V
+
+
+def observe(res, M, R, tol, data, label, s, warm=()):
     """All observables of a matrix object against the dense reference R."""
     from mici import matrices as mm
 
     ck = Checker(res, label, tol)
     n, m = R.shape
+    c0 = mtree.caps(M)
+    for w in warm:
+        first = w.split(".")[0]
+        if n != m and first != "array" and first != "T":
+            continue
+        if (first in ("eigval", "eigvec") and not c0["sym"]) or (first == "sqrt" and not c0["pd"]) or \
+                (first == "inv" and not c0["inv"]) or (w == "inv.eigval" and not (c0["inv"] and c0["symcls"])) or \
+                (w == "inv.sqrt" and not (c0["inv"] and c0["pd"])) or (w == "T.inv" and not c0["inv"]) or \
+                (first == "log_abs_det" and not isinstance(M, mm.SquareMatrix)) or \
+                (first == "diagonal" and not hasattr(type(M), "diagonal")):
+            continue
+
+        def ev(w=w):
+            obj = M
+            for a in w.split("."):
+                obj = getattr(obj, a)
+            return obj
+
+        ck.call("warm:" + w, ev)
     ck.eq("array", lambda: M.array, R)
     ck.eq("shape", lambda: np.array(M.shape), np.array(R.shape))
     v, B = _arr(data, m), _arr(data[3:], m, 2)
@@ -144,15 +183,11 @@ def observe(res, M, R, tol, data, label, s):
         ck.eq("inv.log_abs_det", lambda: M.inv.log_abs_det, -np.linalg.slogdet(R)[1])
         ck.eq("inv.inv.array", lambda: M.inv.inv.array, R)
     if c["sym"]:
-        lam = ck.call("eigval", lambda: np.asarray(M.eigval, dtype=float))
-        V = ck.call("eigvec", lambda: np.asarray(M.eigvec.array, dtype=float))
-        if lam is not None and V is not None:
-            if lam.shape != (n,) or V.shape != (n, n):
-                res.fail(f"C10:{label}:eig:shape", f"eigval {lam.shape} / eigvec {V.shape} for size {n}")
-            else:
-                ck.eq("eig:AV=VL", lambda: R @ V - V * lam, np.zeros((n, n)), extra_scale=np.max(np.abs(R)))
-                ck.eq("eig:VtV=I", lambda: V.T @ V, np.eye(n))
-                ck.eq("eigvec-matmul", lambda: M.eigvec @ v, V @ v)
+        lam, V = _eig_consistent(ck, "", M, R, n)
+        if V is not None:
+            ck.eq("eigvec-matmul", lambda: M.eigvec @ v, V @ v)
+        if c["inv"] and c["symcls"] and isinstance(M.inv, mm.SymmetricMatrix):
+            _eig_consistent(ck, "inv.", M.inv, np.linalg.inv(R), n)
     if c["pd"]:
         S = ck.call("sqrt", lambda: M.sqrt)
         if S is not None:
@@ -161,6 +196,23 @@ def observe(res, M, R, tol, data, label, s):
                 ck.eq("sqrt:SSt=A", lambda: Sa @ Sa.T, R)
                 ck.eq("sqrt-matmul", lambda: S @ v, Sa @ v)
                 ck.eq("sqrt-T-matmul", lambda: S.T @ v, Sa.T @ v)
+    # objects derived now, after every cache of M has been populated
+    for tag, X, Rx in (("late(s*M).", ck.call("late-scalar-mul", lambda: s * M), s * R),
+                       ("late(-M).", ck.call("late-neg", lambda: -M), -R)):
+        if X is None:
+            continue
+        cx = mtree.caps(X)
+        ck.eq(tag + "array", lambda: X.array, Rx)
+        if isinstance(X, mm.SquareMatrix):
+            ck.eq(tag + "log_abs_det", lambda: X.log_abs_det, np.linalg.slogdet(Rx)[1])
+        if cx["inv"]:
+            ck.eq(tag + "inv.array", lambda: X.inv.array, np.linalg.inv(Rx))
+        if cx["sym"]:
+            _eig_consistent(ck, tag, X, Rx, n)
+        if cx["pd"]:
+            Sx = ck.call(tag + "sqrt.array", lambda: np.asarray(X.sqrt.array, dtype=float))
+            if Sx is not None:
+                ck.eq(tag + "sqrt:SSt=A", lambda: Sx @ Sx.T, Rx)
 
 
 def children(spec):
@@ -192,7 +244,7 @@ def check_node(spec, case):
         return r, None
     for cls, op, cap, got in usable:
         r.fail(f"C10:usable:{cls}.{op}:{cap}", f"{op} of a {cls} (usable as {cap}) gave a {got} that is not")
-    observe(r, b.M, b.R, 1e-10 * b.kappa, case["data"], _root_label(spec, b.M), case["s"])
+    observe(r, b.M, b.R, 1e-10 * b.kappa, case["data"], _root_label(spec, b.M), case["s"], case.get("warm", ()))
     return r, b
 
 
